@@ -15,6 +15,9 @@ from collections import Counter
 from concurrent.futures import ProcessPoolExecutor, as_completed
 from multiprocessing import get_context
 
+if hasattr(sys, "set_int_max_str_digits"):
+    sys.set_int_max_str_digits(0)  # a broken evaluator may produce enormous integers; reporting them must not fail
+
 VERIF = os.path.dirname(os.path.dirname(os.path.abspath(__file__)))
 REPO = os.path.realpath(os.environ.get("VERIF_REPO", "/repo"))
 
